@@ -100,7 +100,12 @@ template <class D> struct WidenHarness : Harness {
   Plan generate(Rng& r, const std::string&, bool thorough) override {
     Plan p; p.domain = Dom<D>::name();
     int dim = (int) r.range(1, thorough ? 4 : 3);
+    // polyhedra: some chains live on a lineality space of dimension 2 with skewed (non axis-parallel, mutually
+    // non-orthogonal) lines, where the widening heuristics and certificates that look at rays must work modulo the lines
+    long lines = 0;
+    if (Dom<D>::kind == POLY && r.chance(20)) { lines = 2; dim = (int) r.range(3, 4); }
     p.knobs["dim"] = dim; p.knobs["W"] = dim + 2; p.knobs["pseed"] = (long) r.below(1000000);
+    if (lines) { p.knobs["lines"] = lines; p.knobs["lseed"] = (long) r.below(1000000); }
     int W = dim + 2;
     { Op op; op.kind = "start"; op.a = { r.range(2, 5) }; OH::gen_construct(r, op, W, false); p.ops.push_back(op); }
     long n = r.range(3, thorough ? 24 : 12);
@@ -158,7 +163,22 @@ template <class D> struct WidenHarness : Harness {
       ctx.begin_op(idx, op);
       ctx.log(op.kind);
       try {
-        if (op.kind == "start") { Cur c(op, 0, W); x = OH::construct_dim(dim, c); ++ctx.ops_done; continue; }
+        if (op.kind == "start") { Cur c(op, 0, W); x = OH::construct_dim(dim, c);
+          if constexpr (Dom<D>::kind == POLY) {
+            long nl = std::min(3L, std::max(0L, plan.knob("lines", 0)));
+            bool e; { D t(*x); e = t.is_empty(); }
+            if (nl > 0 && !e) {
+              u64 ls = (u64) plan.knob("lseed", 1) * 2654435761ULL + 12345;
+              for (long l = 0; l < nl; ++l) {
+                Linear_Expression le; bool nz = false;
+                for (int k = 0; k < dim; ++k) { ls = ls * 6364136223846793005ULL + 1442695040888963407ULL; long cf = (long) ((ls >> 33) % 5) - 2; if (cf != 0) nz = true; le += cf * Variable((dimension_type) k); }
+                if (!nz) le += Variable((dimension_type) (l % dim));
+                x->add_generator(PPL::line(le));
+              }
+              ctx.stat("widen.skewed_lineality_chain");
+            }
+          }
+          ++ctx.ops_done; continue; }
         if (!x) x.reset(new D((dimension_type) dim, PPL::EMPTY));
         int v = (int) op.mod(0, WOps<D>::count());
         unsigned tokens = (unsigned) op.mod(1, 4);
